@@ -18,6 +18,12 @@ labels, units, definitions), reopen read-only and call setters that overwrite th
 the raw dump at the END of the read-only session (after the refused calls) has to equal the one taken when it was opened
 (diff=ro-session:...) as well as the dump after the next reopen (read-only, other process, read-write); the file must
 open again in this process (ERR reopen-failed otherwise), and the read-write session then goes on writing.
+Blind build (`quiet on`): the tree — with entities whose optional sub-containers were never touched next to populated ones —
+is built without one getter being called; the first look at the file is a reopen (read-only, another process, read-write), and
+what it shows has to be what the MODEL predicts (digest of the canonical dump), then again after a read-write reopen.
+Kept handles (`hobs`): after replace-all / clear calls (empty vectors included) the entity is read through the very handle
+that made the call and compared with fresh handles and with the reopened file.
+(seeded changes C02-B3: a getter that creates its sub-group; C02-A3: a cached sub-group handle after references({}).)
 (seeded changes C02-A: refused numeric overwrite stays visible until close; C02-B: file id leaked by a refused write.)"""
 import random, re
 from engine import Prop, Case
@@ -29,6 +35,7 @@ class C02(Prop):
     driver = 'drv_C02'
     model = 'C02'
     level = 'proof'
+    search_scale = 2          # the widened search after a break: 2 x the thorough stream per seed
     technique = 'history correspondence + session model proof + self-comparison of the full dump across close/reopen'
     level_text = ('observe_file_only, close_reopen_observe (every history, both modes), intermediate_reopen (file and every later '
                   'answer unchanged), ro_session_observes_same, query_pure proved for the session model over the step function of '
@@ -53,9 +60,13 @@ class C02(Prop):
 
     def _generate(self, seed, tier, scale=1):
         rnd = random.Random(seed * 32452843 + 2)
-        n = (150 if tier == 'quick' else 3000) * scale
+        n = (130 if tier == 'quick' else 3000) * scale
         cases = []
         flav = ['mixed', 'mixed', 'reopen rw', 'reopen ro', 'reopen other', 'reopen otherw']
+        # blind build: nothing is observed before the first reopen (read-only, in another process, read-write ...)
+        firsts = ['ro', 'other', 'ro', 'other', 'rw', 'otherw', 'def']
+        for i in range((28 if tier == 'quick' else 600) * scale):
+            cases.append(histlib.gen_c02_blind_case(rnd, firsts[i % len(firsts)]))
         for i in range(n):
             every = [0, 3, 6, 10, 15][i % 5]
             cases.append(histlib.gen_c02_case(rnd, rnd.randint(15, 45), every, flav[i % len(flav)]))
@@ -82,12 +93,15 @@ class C02(Prop):
         if i is None:
             return {'op': 'none'}
         a = histlib.split_tail(impl_lines[i] or '')[0]
-        sig = {'op': case.lines[i]}
+        sig = {'op': case.lines[i] if case.lines[i].startswith('reopen') else case.lines[i].split(' ')[0]}
         if a.startswith('CRASH'):
             sig['what'] = 'crash'
             return sig
         m = re.search(r'diff=(\S+)', a)
         sig['diff'] = m.group(1) if m else ('reopen-failed' if 'reopen-failed' in a else 'digest')
+        if sig['diff'] == '-':
+            # the implementation agrees with itself; what it shows is not what the model predicts for the history
+            sig['diff'] = 'tree-differs-from-model'
         return sig
 
     def describe(self, case, impl_lines, spec_lines):
